@@ -222,7 +222,6 @@ func optimizeAllAnswers(protein string, t codon.Table) (results map[string]int, 
 	return
 }
 
-
 // codonMenu: calls on the codon package for the history-independence units. Tables that are re-weighted are
 // private deep copies, so the recorded GetCodonTable storage leak is not exercised here.
 func codonMenu() []hcall {
